@@ -153,3 +153,12 @@ def commb_reexports_are_the_decoders():
         owners = [m for m in mods if n in vars(m._load()) and getattr(getattr(m, n), "__module__", None) == m._load().__name__]
         assert len(owners) == 1, "exactly one register module defines " + n
         assert getattr(COMMB, n) is getattr(owners[0], n), "commb.%s is the register module's %s" % (n, n)
+
+
+@harness(("C11", "C14"), inputs={"msg": HexStr(28), "name": Choice("alt40mcp", "alt40fms")},
+         functions=[D + "40.alt40mcp", D + "40.alt40fms"], body_of=[D + "40.alt40mcp", D + "40.alt40fms"])
+def deprecated_alias_body(msg, name):
+    # the two deprecated names still exported by pyModeS.commb must decode the same field as their successors
+    target = "selalt40mcp" if name == "alt40mcp" else "selalt40fms"
+    assert outcome(getattr(B40, name), msg) == outcome(commb_spec.field_decoder, target, msg), \
+        "alt40mcp / alt40fms decode the MCP / FMS selected altitude like selalt40mcp / selalt40fms"
